@@ -106,6 +106,11 @@ bool BufferedFd::enable()
     if (sp_read_event_ != nullptr)
         sp_read_event_->enable();
 
+    //! 如果发送缓冲中还有在 enable() 之前（或 disable() 期间）积压的数据，
+    //! 则需要打开可写事件，否则这些数据永远不会被发送
+    if (sp_write_event_ != nullptr && send_buff_.readableSize() > 0)
+        sp_write_event_->enable();
+
     state_ = State::kRunning;
 
     return true;
